@@ -83,8 +83,13 @@ def histories(tier, alphabet="wf"):
 POISONABLE = {"stream": "surrogate", "stream.gz": "surrogate", "jsonfile": "bigint", "sqlite": "int65"}
 
 
+# the stream-level writer on a file object the caller opened (and still holds when the writer has been closed)
+FILEOBJ_WRITERS = ["stream-fileobj", "stream-fileobj.gz", "stream-output-fileobj"]
+
+
 def history_cases(tier):
     cases = [{"writer": w, "hist": h} for w in WRITERS for h in histories(tier)]
+    cases += [{"writer": w, "hist": h} for w in FILEOBJ_WRITERS for h in histories(tier) if "exit" not in h]
     # histories in which some write() raises and the caller carries on ('p'): nothing accepted may be lost
     for w in POISONABLE:
         for h in histories(tier, "wfp"):
@@ -188,9 +193,16 @@ def check_history(case, ctx):
         written = []
         flushed_last = False
         close_without_flush = False
-        w = RecordWriter(url)
+        held = None
+        if kind in FILEOBJ_WRITERS:
+            from flow.record.stream import RecordOutput, RecordStreamWriter
+
+            held = gzip.open(path_of(url), "wb") if kind.endswith(".gz") else open(path_of(url), "wb")
+            w = RecordOutput(held) if kind == "stream-output-fileobj" else RecordStreamWriter(held)
+        else:
+            w = RecordWriter(url)
         k = 0
-        base = "history/%s" % kind.split(".")[0]
+        base = "history/%s" % kind.split(".")[0].split("-")[0]
         for op in hist:
             if op == "w":
                 r = mkrec(k)
@@ -408,6 +420,8 @@ def rotation_case(draw):
         "step": draw(st.sampled_from([0, 0, 0.4, 1, 3600])),
         "pre": draw(st.lists(st.integers(0, nslots - 1), max_size=2, unique=True)),
         "gz": draw(st.booleans()),
+        # what distinguishes the files: the hour (the default template's granularity), the minute, or a record field
+        "gran": draw(st.sampled_from(["hour", "hour", "minute", "field"])),
     }
 
 
@@ -426,14 +440,42 @@ def check_rotation(case, ctx):
     fake = types.SimpleNamespace(datetime=types.SimpleNamespace(now=clock.now), timezone=_d.timezone, timedelta=_d.timedelta)
     try:
         ext = ".records.gz" if case["gz"] else ".records"
-        template = os.path.join(tmp, "{name}-{ts:%Y%m%dT%H}" + ext)
+        gran = case.get("gran", "hour")
+        ctx.cls("template-granularity:" + gran)
+        if gran == "hour":
+            template = os.path.join(tmp, "{name}-{ts:%Y%m%dT%H}" + ext)
+        elif gran == "minute":
+            template = os.path.join(tmp, "{name}-{ts:%Y%m%dT%H%M}" + ext)
+        else:
+            template = os.path.join(tmp, "{name}-{ts:%Y%m%dT%H}-{record.tag}" + ext)
+
+        def slot_ts(slot):
+            if gran == "minute":
+                return _d.datetime(2023, 5, 1, 7, slot, 30, tzinfo=UTC)
+            if gran == "field":
+                return _d.datetime(2023, 5, 1, 7, 30, tzinfo=UTC)
+            return _d.datetime(2023, 5, 1, slot, 30, tzinfo=UTC)
+
+        def slot_prefix(slot):
+            if gran == "minute":
+                return "records-20230501T07%02d" % slot
+            if gran == "field":
+                return "records-20230501T07-slot%d." % slot
+            return "records-20230501T%02d" % slot
+
+        def mk(k, slot):
+            if gran != "field":
+                return mkrec(k, slot_ts(slot))
+            from flow.record import RecordDescriptor
+
+            d = RecordDescriptor("c17/rec", [("string", "s"), ("varint", "n"), ("string", "tag")])
+            return d("val-%d" % k, k, "slot%d" % slot, _generated=slot_ts(slot))
         expected = []
         # pre-existing files at target paths
         for slot in case["pre"]:
-            ts = _d.datetime(2023, 5, 1, slot, 30, tzinfo=UTC)
-            p = template.format(name="records", ts=ts)
+            r = mk(1000 + slot, slot)
+            p = template.format(name="records", ts=slot_ts(slot), record=r)
             w = RecordWriter(p)
-            r = mkrec(1000 + slot, ts)
             w.write(r)
             w.flush()
             w.close()
@@ -442,8 +484,7 @@ def check_rotation(case, ctx):
         ptw = PathTemplateWriter(template)
         try:
             for i, slot in enumerate(seq):
-                ts = _d.datetime(2023, 5, 1, slot, 30, tzinfo=UTC)
-                res = impl(ptw.write, mkrec(i, ts))
+                res = impl(ptw.write, mk(i, slot))
                 if not res.ok:
                     raise Violation("rotation/write-raised", "%r" % (res,), detail=res.type)
                 expected.append((i, i))
@@ -460,7 +501,9 @@ def check_rotation(case, ctx):
             def rd():
                 r = RecordReader(fp)
                 try:
-                    return [(int(str(x.s).split("-")[1]), int(x.n), x._generated.hour) for x in r]
+                    return [(int(str(x.s).split("-")[1]), int(x.n),
+                             int(str(x.tag)[4:]) if gran == "field" else x._generated.minute if gran == "minute" else x._generated.hour)
+                            for x in r]
                 finally:
                     r.close()
 
@@ -470,8 +513,8 @@ def check_rotation(case, ctx):
             per_file[f] = got.value
             for a, b, hour in got.value:
                 found.append((a, b))
-                if not f.startswith("records-20230501T%02d" % hour):
-                    raise Violation("rotation/wrong-file", "record %d (hour %d) found in %s" % (a, hour, f))
+                if not f.startswith(slot_prefix(hour)):
+                    raise Violation("rotation/wrong-file", "record %d (%s slot %d) found in %s" % (a, gran, hour, f), detail=gran)
         if sorted(found) != sorted(expected):
             missing = sorted(set(expected) - set(found))
             extra = sorted(x for x in found if found.count(x) > 1)
